@@ -1,0 +1,476 @@
+//! Verification hooks. Only compiled with the cargo feature `verif_hooks`.
+//!
+//! Nothing in here is part of the rustradio API. With the feature off this
+//! module does not exist and no other module refers to it.
+//!
+//! What it provides:
+//!
+//! * `shim`: a stand-in for the `std` paths used by the runtime modules
+//!   (`circular_buffer`, `stream`, `graph`, `mtgraph`). Those modules get one
+//!   extra line, `use crate::verif::shim as std;`, which redirects
+//!   `std::sync::{Mutex, Condvar}`, `std::sync::atomic::AtomicBool`,
+//!   `std::thread::{Builder, JoinHandle, sleep}` to the types below. Everything
+//!   else is re-exported from the real `std`.
+//! * `Runtime`: the trait a simulator implements to own blocking, wake-ups,
+//!   time-outs, time and thread start/exit. With no runtime installed on the
+//!   calling thread every shim type is a thin pass-through to the real `std`
+//!   type, so a hooks-on build behaves like the shipped one.
+//! * Small knobs: stream size override, window open/close notifications.
+
+use ::std::cell::{Cell, RefCell};
+use ::std::sync::Arc;
+use ::std::sync::atomic::{AtomicUsize, Ordering};
+use ::std::time::Duration;
+
+/// Kind of stream window, for [`Runtime::window`].
+#[derive(Clone, Copy, Debug, PartialEq, Eq)]
+pub enum WindowKind {
+    /// A `BufferReader`.
+    Read,
+    /// A `BufferWriter`.
+    Write,
+}
+
+/// What a simulator has to provide. All methods are called on the thread that
+/// performs the operation.
+pub trait Runtime: Send + Sync {
+    /// Hand out a fresh id for a mutex / condvar / atomic.
+    fn new_id(&self) -> usize;
+    /// Acquire the simulated mutex. Returns once the caller owns it.
+    fn mutex_lock(&self, id: usize);
+    /// Release the simulated mutex (called after the real one was unlocked).
+    fn mutex_unlock(&self, id: usize);
+    /// Release `mutex`, wait on `cv`, re-acquire `mutex`. Returns true if the
+    /// wait ended because the time-out fired.
+    fn cv_wait(&self, cv: usize, mutex: usize, timeout: Option<Duration>) -> bool;
+    /// Wake all waiters of `cv`.
+    fn cv_notify_all(&self, cv: usize);
+    /// Scheduling point before an atomic access.
+    fn atomic_access(&self, id: usize, store: bool);
+    /// Sleep in simulated time.
+    fn sleep(&self, d: Duration);
+    /// Called in the parent before a thread is created. `Err` makes the spawn
+    /// fail (fault injection); `Ok(tid)` names the new thread.
+    fn thread_create(&self, name: Option<&str>) -> ::std::io::Result<usize>;
+    /// Called in the parent after the OS thread was created.
+    fn thread_created(&self, tid: usize);
+    /// First thing a new thread does. Returns when it is scheduled.
+    fn thread_start(&self, tid: usize);
+    /// Last thing a thread does (also when unwinding).
+    fn thread_exit(&self, tid: usize);
+    /// Wait (in simulated terms) for thread `tid` to have exited.
+    fn thread_join(&self, tid: usize);
+    /// A stream window was opened (`open`) or dropped. `start`/`end` are in
+    /// samples, `end` may exceed `capacity` (second half of the mapping).
+    fn window(
+        &self,
+        _buf: usize,
+        _kind: WindowKind,
+        _open: bool,
+        _start: usize,
+        _end: usize,
+        _capacity: usize,
+    ) {
+    }
+}
+
+thread_local! {
+    static RT: RefCell<Option<Arc<dyn Runtime>>> = const { RefCell::new(None) };
+    static STREAM_SIZE: Cell<usize> = const { Cell::new(0) };
+}
+
+/// Install (or remove) the runtime for the calling thread.
+pub fn install(rt: Option<Arc<dyn Runtime>>) {
+    RT.with(|r| *r.borrow_mut() = rt);
+}
+
+/// The runtime of the calling thread, if any.
+pub fn current() -> Option<Arc<dyn Runtime>> {
+    RT.try_with(|r| r.borrow().clone()).ok().flatten()
+}
+
+/// Override the byte size used by `new_stream()` on this thread (0 = default).
+pub fn set_stream_size(bytes: usize) {
+    STREAM_SIZE.with(|s| s.set(bytes));
+}
+
+/// Byte size `new_stream()` should use on this thread.
+pub fn stream_size(default: usize) -> usize {
+    match STREAM_SIZE.with(|s| s.get()) {
+        0 => default,
+        n => n,
+    }
+}
+
+static NEXT_BUF_ID: AtomicUsize = AtomicUsize::new(1);
+
+/// Process-wide unique id for a buffer (not used for any decision).
+pub fn new_buf_id() -> usize {
+    NEXT_BUF_ID.fetch_add(1, Ordering::Relaxed)
+}
+
+/// Report a window event to the runtime of the calling thread, if any.
+pub fn window(buf: usize, kind: WindowKind, open: bool, start: usize, end: usize, cap: usize) {
+    if let Some(rt) = current() {
+        rt.window(buf, kind, open, start, end, cap);
+    }
+}
+
+fn lazy_id(slot: &AtomicUsize, rt: &Arc<dyn Runtime>) -> usize {
+    let v = slot.load(Ordering::Relaxed);
+    if v != 0 {
+        return v;
+    }
+    let id = rt.new_id() + 1;
+    slot.store(id, Ordering::Relaxed);
+    id
+}
+
+/// Stand-in for `std`.
+pub mod shim {
+    pub use ::std::*;
+
+    /// Stand-in for `std::sync`.
+    pub mod sync {
+        pub use super::super::{Condvar, Mutex, MutexGuard, WaitTimeoutResult};
+        pub use ::std::sync::*;
+
+        /// Stand-in for `std::sync::atomic`.
+        pub mod atomic {
+            pub use super::super::super::AtomicBool;
+            pub use ::std::sync::atomic::*;
+        }
+    }
+
+    /// Stand-in for `std::thread`.
+    pub mod thread {
+        pub use super::super::{Builder, JoinHandle, sleep};
+        pub use ::std::thread::*;
+    }
+}
+
+/// See `std::sync::Mutex`.
+#[derive(Debug, Default)]
+pub struct Mutex<T> {
+    id: AtomicUsize,
+    inner: ::std::sync::Mutex<T>,
+}
+
+/// See `std::sync::MutexGuard`.
+pub struct MutexGuard<'a, T> {
+    mutex: &'a Mutex<T>,
+    rt: Option<(Arc<dyn Runtime>, usize)>,
+    inner: Option<::std::sync::MutexGuard<'a, T>>,
+}
+
+impl<T> Mutex<T> {
+    /// See `std::sync::Mutex::new`.
+    pub const fn new(t: T) -> Self {
+        Self {
+            id: AtomicUsize::new(0),
+            inner: ::std::sync::Mutex::new(t),
+        }
+    }
+
+    /// See `std::sync::Mutex::lock`.
+    pub fn lock(&self) -> ::std::sync::LockResult<MutexGuard<'_, T>> {
+        match current() {
+            None => match self.inner.lock() {
+                Ok(g) => Ok(MutexGuard {
+                    mutex: self,
+                    rt: None,
+                    inner: Some(g),
+                }),
+                Err(p) => Err(::std::sync::PoisonError::new(MutexGuard {
+                    mutex: self,
+                    rt: None,
+                    inner: Some(p.into_inner()),
+                })),
+            },
+            Some(rt) => {
+                let id = lazy_id(&self.id, &rt);
+                rt.mutex_lock(id);
+                self.real_lock_owned(Some((rt, id)))
+            }
+        }
+    }
+
+    // The simulated mutex is owned by the caller, so the real one is free.
+    fn real_lock_owned(
+        &self,
+        rt: Option<(Arc<dyn Runtime>, usize)>,
+    ) -> ::std::sync::LockResult<MutexGuard<'_, T>> {
+        match self.inner.try_lock() {
+            Ok(g) => Ok(MutexGuard {
+                mutex: self,
+                rt,
+                inner: Some(g),
+            }),
+            Err(::std::sync::TryLockError::Poisoned(p)) => {
+                Err(::std::sync::PoisonError::new(MutexGuard {
+                    mutex: self,
+                    rt,
+                    inner: Some(p.into_inner()),
+                }))
+            }
+            Err(::std::sync::TryLockError::WouldBlock) => {
+                panic!("verif shim: simulated mutex owned, but the real one is locked")
+            }
+        }
+    }
+}
+
+impl<T> ::std::ops::Deref for MutexGuard<'_, T> {
+    type Target = T;
+    fn deref(&self) -> &T {
+        self.inner.as_ref().expect("guard without lock")
+    }
+}
+
+impl<T> ::std::ops::DerefMut for MutexGuard<'_, T> {
+    fn deref_mut(&mut self) -> &mut T {
+        self.inner.as_mut().expect("guard without lock")
+    }
+}
+
+impl<T> Drop for MutexGuard<'_, T> {
+    fn drop(&mut self) {
+        drop(self.inner.take());
+        if let Some((rt, id)) = self.rt.take() {
+            rt.mutex_unlock(id);
+        }
+    }
+}
+
+/// See `std::sync::WaitTimeoutResult`.
+#[derive(Debug, Clone, Copy, PartialEq, Eq)]
+pub struct WaitTimeoutResult(bool);
+
+impl WaitTimeoutResult {
+    /// See `std::sync::WaitTimeoutResult::timed_out`.
+    pub fn timed_out(&self) -> bool {
+        self.0
+    }
+}
+
+/// See `std::sync::Condvar`.
+#[derive(Debug, Default)]
+pub struct Condvar {
+    id: AtomicUsize,
+    inner: ::std::sync::Condvar,
+}
+
+impl Condvar {
+    /// See `std::sync::Condvar::new`.
+    pub const fn new() -> Self {
+        Self {
+            id: AtomicUsize::new(0),
+            inner: ::std::sync::Condvar::new(),
+        }
+    }
+
+    /// See `std::sync::Condvar::notify_all`.
+    pub fn notify_all(&self) {
+        match current() {
+            None => self.inner.notify_all(),
+            Some(rt) => {
+                let id = lazy_id(&self.id, &rt);
+                rt.cv_notify_all(id);
+            }
+        }
+    }
+
+    /// See `std::sync::Condvar::wait_timeout_while`.
+    pub fn wait_timeout_while<'a, T, F>(
+        &self,
+        mut guard: MutexGuard<'a, T>,
+        dur: Duration,
+        mut condition: F,
+    ) -> ::std::sync::LockResult<(MutexGuard<'a, T>, WaitTimeoutResult)>
+    where
+        F: FnMut(&mut T) -> bool,
+    {
+        let mutex = guard.mutex;
+        match guard.rt.take() {
+            None => {
+                let g = guard.inner.take().expect("guard without lock");
+                ::std::mem::forget(guard);
+                match self.inner.wait_timeout_while(g, dur, condition) {
+                    Ok((g, r)) => Ok((
+                        MutexGuard {
+                            mutex,
+                            rt: None,
+                            inner: Some(g),
+                        },
+                        WaitTimeoutResult(r.timed_out()),
+                    )),
+                    Err(p) => {
+                        let (g, r) = p.into_inner();
+                        Err(::std::sync::PoisonError::new((
+                            MutexGuard {
+                                mutex,
+                                rt: None,
+                                inner: Some(g),
+                            },
+                            WaitTimeoutResult(r.timed_out()),
+                        )))
+                    }
+                }
+            }
+            Some((rt, mid)) => {
+                let cvid = lazy_id(&self.id, &rt);
+                guard.rt = Some((rt.clone(), mid));
+                loop {
+                    if !condition(&mut *guard) {
+                        return Ok((guard, WaitTimeoutResult(false)));
+                    }
+                    // Really unlock, then let the runtime release the simulated
+                    // mutex, park us, and re-acquire it.
+                    drop(guard.inner.take());
+                    guard.rt = None;
+                    ::std::mem::forget(guard);
+                    let timed_out = rt.cv_wait(cvid, mid, Some(dur));
+                    let (g, poisoned) = match mutex.real_lock_owned(Some((rt.clone(), mid))) {
+                        Ok(g) => (g, false),
+                        Err(p) => (p.into_inner(), true),
+                    };
+                    guard = g;
+                    if poisoned {
+                        return Err(::std::sync::PoisonError::new((
+                            guard,
+                            WaitTimeoutResult(timed_out),
+                        )));
+                    }
+                    if timed_out {
+                        return Ok((guard, WaitTimeoutResult(true)));
+                    }
+                }
+            }
+        }
+    }
+}
+
+/// See `std::sync::atomic::AtomicBool`.
+#[derive(Debug, Default)]
+pub struct AtomicBool {
+    id: AtomicUsize,
+    inner: ::std::sync::atomic::AtomicBool,
+}
+
+impl AtomicBool {
+    /// See `std::sync::atomic::AtomicBool::new`.
+    pub const fn new(v: bool) -> Self {
+        Self {
+            id: AtomicUsize::new(0),
+            inner: ::std::sync::atomic::AtomicBool::new(v),
+        }
+    }
+
+    /// See `std::sync::atomic::AtomicBool::load`.
+    pub fn load(&self, order: Ordering) -> bool {
+        if let Some(rt) = current() {
+            let id = lazy_id(&self.id, &rt);
+            rt.atomic_access(id, false);
+        }
+        self.inner.load(order)
+    }
+
+    /// See `std::sync::atomic::AtomicBool::store`.
+    pub fn store(&self, v: bool, order: Ordering) {
+        if let Some(rt) = current() {
+            let id = lazy_id(&self.id, &rt);
+            rt.atomic_access(id, true);
+        }
+        self.inner.store(v, order)
+    }
+}
+
+/// See `std::thread::sleep`.
+pub fn sleep(d: Duration) {
+    match current() {
+        None => ::std::thread::sleep(d),
+        Some(rt) => rt.sleep(d),
+    }
+}
+
+/// See `std::thread::Builder`.
+#[derive(Debug)]
+pub struct Builder {
+    name: Option<String>,
+}
+
+/// See `std::thread::JoinHandle`.
+pub struct JoinHandle<T> {
+    inner: ::std::thread::JoinHandle<T>,
+    managed: Option<(Arc<dyn Runtime>, usize)>,
+}
+
+struct ExitGuard(Arc<dyn Runtime>, usize);
+impl Drop for ExitGuard {
+    fn drop(&mut self) {
+        self.0.thread_exit(self.1);
+        install(None);
+    }
+}
+
+impl Builder {
+    /// See `std::thread::Builder::new`.
+    #[allow(clippy::new_without_default)]
+    pub fn new() -> Self {
+        Self { name: None }
+    }
+
+    /// See `std::thread::Builder::name`.
+    pub fn name(mut self, name: String) -> Self {
+        self.name = Some(name);
+        self
+    }
+
+    /// See `std::thread::Builder::spawn`.
+    pub fn spawn<F, T>(self, f: F) -> ::std::io::Result<JoinHandle<T>>
+    where
+        F: FnOnce() -> T + Send + 'static,
+        T: Send + 'static,
+    {
+        let mut b = ::std::thread::Builder::new();
+        if let Some(n) = &self.name {
+            b = b.name(n.clone());
+        }
+        match current() {
+            None => Ok(JoinHandle {
+                inner: b.spawn(f)?,
+                managed: None,
+            }),
+            Some(rt) => {
+                let tid = rt.thread_create(self.name.as_deref())?;
+                let rt2 = rt.clone();
+                let inner = b.spawn(move || {
+                    install(Some(rt2.clone()));
+                    rt2.thread_start(tid);
+                    let _g = ExitGuard(rt2, tid);
+                    f()
+                })?;
+                rt.thread_created(tid);
+                Ok(JoinHandle {
+                    inner,
+                    managed: Some((rt, tid)),
+                })
+            }
+        }
+    }
+}
+
+impl<T> JoinHandle<T> {
+    /// See `std::thread::JoinHandle::thread`.
+    pub fn thread(&self) -> &::std::thread::Thread {
+        self.inner.thread()
+    }
+
+    /// See `std::thread::JoinHandle::join`.
+    pub fn join(self) -> ::std::thread::Result<T> {
+        if let Some((rt, tid)) = &self.managed {
+            rt.thread_join(*tid);
+        }
+        self.inner.join()
+    }
+}
